@@ -27,69 +27,65 @@ def run(ctx):
     fi = mdl.func('path.Arc.phase2t')
     PSI = Rat.sym('psi')
 
-    # ---------------------------------------------------------------- R12.2 (a) the limit handed to _deg
-    rec = {}
+    # ---------------------------------------------------------------- R12.2 the whole of phase2t, per sign of delta
+    def split2(arg):
+        """(a, b) of a two-argument function atom fn(a, b)"""
+        return arg.diff('__sep__'), arg.subst({'__sep__': Rat.const(0)})
 
-    def deg_hook(it, a, k, rec=rec):
-        rec['args'] = (a, dict(k))
-        return Rat.sym('DEGS')
+    for sweep in (False, True):
+        def th2(it, sweep=sweep):
+            arc = sym_arc(it, 'A', True, sweep)
+            t = it.call_method(arc, 'phase2t', PSI)
+            return t, arc, path_sign(it, arc.attrs['delta']), it
 
-    def th(it):
-        rec.clear()
-        arc = sym_arc(it, 'A', True, False)
-        t = it.call_method(arc, 'phase2t', PSI)
-        return t, dict(rec), arc, path_sign(it, arc.attrs['delta'])
-
-    def judge(v):
-        t, rec, arc, sg = v
-        if 'args' not in rec:
-            return None, 'the nested helper _deg was not called (phase2t restructured)'
-        a, k = rec['args']
-        limit = k.get('domain_lower_limit', a[1] if len(a) > 1 else None)
-        theta, delta = arc.attrs['theta'], arc.attrs['delta']
-        if sg == frozenset('+'):
-            exp = theta
-        elif sg <= frozenset('-0'):
-            exp = theta + delta
-        else:
-            return False, 'the lower limit is not chosen by the sign of delta'
-        ok, d = decide_equal(limit, exp)
-        if ok is not True:
-            return ok, 'for delta %s 0 the angular interval starts at %s, but _deg is given %s' % ('>' if sg == frozenset('+') else '<', short(exp, 40), short(to_rat(limit), 40))
-        return decide_all_equal([('phase argument', a[0], PSI), ('t', t, (Rat.sym('DEGS') - theta) / delta)])
-    Obligation(ctx, 'R12.2').run(fi, 'phase2t: lower limit per sign of delta, t formula', th, judge, allowed_raises=('AssertionError',),
-                                 opts=arc_opts(mdl, {'call_hooks': {'<locals>._deg': deg_hook}}))
-
-    # (b) _deg itself
-    def th2(it):
-        arc = sym_arc(it, 'A', True, True)
-        t = it.call_method(arc, 'phase2t', PSI)
-        return t, arc
-
-    def judge2(v):
-        t, arc = v
-        theta, delta = arc.attrs['theta'], arc.attrs['delta']
-        degs = to_rat(t) * delta + theta
-        base = None
-        fd = None
-        for a in degs.atoms():
-            at = poly.atom_of(a)
-            if at.fn == 'mod':
-                base = Rat(Poly.atom(at)) * 180 / PI
-            if at.fn == 'floordiv':
-                fd = Rat(Poly.atom(at))
-        if base is None:
-            return None, 'the reduction of the phase modulo 2*pi was not recognised'
-        rest = degs - base
-        if fd is None:
-            if rest.is_const():
-                return False, 'the phase is wrapped by a fixed %s degrees only: angular intervals that start below -360 (theta + delta down to -540) cannot be reached' % short(rest, 20)
-            return None, 'the shift into [limit, limit+360) has an unrecognised form: %s' % short(rest, 80)
-        k = (rest - 360 * fd) / 360
-        f = k.as_fraction() if k.is_const() else None
-        ok = f in (0, 1)
-        return ok, '' if ok else 'degs - (phase mod 360) is %s, expected 360*floor(limit/360) (+360)' % short(rest, 80)
-    Obligation(ctx, 'R12.2').run(fi, '_deg shifts by floor(limit/360)*360', th2, judge2, allowed_raises=('AssertionError',), opts=arc_opts(mdl))
+        def judge2(v):
+            t, arc, sg, it = v
+            theta, delta = arc.attrs['theta'], arc.attrs['delta']
+            degs = to_rat(t) * delta + theta
+            base = fd = None
+            for a in degs.atoms():
+                at = poly.atom_of(a)
+                if at.fn == 'mod':
+                    base = at
+                if at.fn == 'floordiv':
+                    fd = at
+            if base is None:
+                return None, 'the reduction of the phase modulo 2*pi was not recognised'
+            ph, per = split2(base.arg)
+            if not (ph.equals(PSI) and per.equals(2 * PI)):
+                return False, 'the phase is reduced as (%s) mod (%s), expected psi mod 2*pi' % (short(ph, 30), short(per, 30))
+            base_deg = Rat(Poly.atom(base)) * 180 / PI
+            rest = degs - base_deg
+            if fd is None:
+                if rest.is_const():
+                    return False, 'the phase is wrapped by a fixed %s degrees only: angular intervals that start below -360 (theta + delta down to -540) cannot be reached' % short(rest, 20)
+                return None, 'the shift into [limit, limit+360) has an unrecognised form: %s' % short(rest, 80)
+            limit, den = split2(fd.arg)
+            if not den.equals(Rat.const(360)):
+                return False, 'the lower limit is floor-divided by %s, expected 360' % short(den, 20)
+            if sg == frozenset('+'):
+                exp = theta
+            elif sg <= frozenset('-0'):
+                exp = theta + delta
+            else:
+                return False, 'the lower limit is not chosen by the sign of delta'
+            ok, d = decide_equal(limit, exp)
+            if ok is not True:
+                return ok, 'for delta %s 0 the angular interval starts at %s, but the phase is shifted into [%s, ..+360)' % (
+                    '>' if sg == frozenset('+') else '<', short(exp, 40), short(limit, 40))
+            fdr = Rat(Poly.atom(fd))
+            k = (rest - 360 * fdr) / 360
+            f = k.as_fraction() if k.is_const() else None
+            if f not in (0, 1):
+                return False, 'degs - (phase mod 360) is %s, expected 360*floor(limit/360) (+360)' % short(rest, 80)
+            below = path_sign(it, base_deg + 360 * fdr - limit)
+            if f == 1 and below != frozenset('-'):
+                return False, '360 is added on a path that does not know the shifted phase to lie below the limit'
+            if f == 0 and not below <= frozenset('0+'):
+                return False, 'the shifted phase is returned on a path that does not know it to be at or above the limit'
+            return True, ''
+        Obligation(ctx, 'R12.2').run(fi, 'phase2t (sweep=%s): limit per sign of delta, shift by floor(limit/360)*360 (+360), t formula' % sweep, th2, judge2,
+                                     allowed_raises=('AssertionError',), opts=arc_opts(mdl))
 
     # ---------------------------------------------------------------- R19.4 instances
     for q in ('polytools.polyroots', 'path.Path.intersect'):
